@@ -368,5 +368,8 @@ def run(ck):
     _c7.import_e3(ck, "7", lambda inst: True)  # a timer inside a TransientSource is re-armed by the wrapper's (re)registration
     _c7.import_results(ck, _m("C07"), "4", "DispatcherInner", "7")  # a disable() after disable()+update() still reaches the timer
     _c7.import_results(ck, _m("C07"), "4", "LoopHandle", "7")
-
-
+    # ---- shared clauses demonstrated by seeding round 8 (the property broken by added code) --------------------
+    from props import common as _c8
+    import importlib as _il8
+    _m8 = lambda n: _il8.import_module('props.' + n)
+    _c8.import_results(ck, _m8("C02"), "2", "Poll::poll", "7")  # every due timer is popped in the poll that finds it due
